@@ -116,7 +116,7 @@ void GridGlobal::recomputeTensorRefs(const MultiIndexSet &work){
 }
 
 void GridGlobal::makeGrid(int cnum_dimensions, int cnum_outputs, int depth, TypeDepth type, TypeOneDRule crule, const std::vector<int> &anisotropic_weights, double calpha, double cbeta, const char* custom_filename, const std::vector<int> &level_limits){
-    if (crule == rule_customtabulated){
+    if ((crule == rule_customtabulated) && (custom_filename != nullptr)){ // updateGrid() keeps the table that is already loaded
         custom.read(custom_filename);
     }
 
